@@ -64,6 +64,19 @@ CLAIMED = {
         ref="DESIGN.md §6 C09",
         technique="Lean 4 proof (parser/round-trip injectivity, cache map lemmas) + differential correspondence",
     ),
+    "C13": dict(
+        text="Lean 4 theorems: a Prefixed number exported by export_prefixed and read back by import_prefixed has exactly the same "
+        "rational value and prefix, for every mantissa length, exponent and each of the 21 prefixes, and is never rejected (integers "
+        "beyond int64 use the string variant); the value dispatch of export_param_value (str/Literal/str-Enum -> literal, int -> int64 "
+        "within range, float -> double, Decimal -> literal, None omitted, other rejected); table theorems over the prefix maps, the "
+        "ideal-primitive name maps and the pulse-source parameter renaming of exporter and importer, all regenerated from the code. "
+        "Tied to the code by generated values through export_param_value and through real instances (all 11 ideal primitives, external "
+        "modules with dict / paramclass parameters) read back from the package and compared exactly (Fraction / Decimal tuple / float bits).",
+        note="Decimal<->text and float<->bits conversions are CPython's (checked on every exported value, not modelled). to_scalar's "
+        "numeric-string recognition is Decimal(text) (CPython). Tables come from harness/gen_tables.py (AST of the dict literals).",
+        ref="DESIGN.md §6 C13",
+        technique="Lean 4 proof (Mathlib ℚ exactness, decide over regenerated tables) + differential correspondence",
+    ),
 }
 NOT_YET = {}
 
